@@ -101,7 +101,7 @@ def run_one(job, timeout):
     return res
 
 
-def run(prop, jobs, timeout=1500):
+def run(prop, jobs, timeout=600):
     """jobs: list of (scenario, workload seed, from, to, miri seed, preemption rate, features).
     Returns (summaries, violations, stats)."""
     feats = sorted({j[6] for j in jobs})
@@ -145,7 +145,7 @@ def replay_file(path):
     job = (rec["scenario"], rec["seed"], rec["from"], rec["to"], rec["miri_seed"], rec["preemption_rate"], rec["features"],
            rec.get("model", "tb"))
     warm(rec["features"])
-    r = run_one(job, 1500)
+    r = run_one(job, 600)
     prop = rec.get("property", "C11")
     # one Miri process covers a small range of cases: it may report a model-level violation for one
     # case and still die of UB in a later one, so every class seen in the re-run counts
